@@ -17,6 +17,14 @@ order of primitive effects may differ from the Python statement order where ther
 point in between (the difference is not observable: the correspondence check compares complete
 snapshots after every public call).  Python `assert`s that guard internal consistency are not
 error points of the model.
+
+The model follows the code after the validate-first fixes (repo commits a2307a6, 5109842, 8e991c5).
+One deliberate difference remains: the model rejects `Node(outputs=[initializer])` (needed for
+"initializers have no producing node"), the code still accepts it (known finding D12b).  The composite
+convenience calls (`rauwMany`, `replaceNodesAndValues`) keep the effects of the sub-calls before a
+rejected one, exactly like the code (known findings D82, D83); `renameValues` and the bulk initializer
+update are all-or-nothing.  `Graph.sort` enters as `sortOk orders` / `sortCycle`: which permutation is
+produced is the subject of C12, here it is an argument that is only applied when it is a permutation.
 -/
 namespace IrVerif.Kernel
 
